@@ -57,6 +57,7 @@ type rewriter struct {
 	file    *ast.File
 	tmpN    int
 	usedVS  bool
+	tryLock bool // the file calls TryLock / TryRLock
 	fname   string
 }
 
@@ -207,6 +208,32 @@ func containsNode(root ast.Node, target ast.Node) bool {
 	return found
 }
 
+// isPkgMapVar: e names a package-level variable of map type (of this or another package).
+func (r *rewriter) isPkgMapVar(e ast.Expr) bool {
+	var id *ast.Ident
+	switch v := e.(type) {
+	case *ast.Ident:
+		id = v
+	case *ast.SelectorExpr:
+		if _, isPkg := r.info.Uses[identOf(v.X)].(*types.PkgName); !isPkg {
+			return false
+		}
+		id = v.Sel
+	default:
+		return false
+	}
+	obj, ok := r.info.Uses[id].(*types.Var)
+	if !ok || obj.IsField() || obj.Parent() == nil || obj.Pkg() == nil || obj.Parent() != obj.Pkg().Scope() {
+		return false
+	}
+	return isMap(obj.Type())
+}
+
+func identOf(e ast.Expr) *ast.Ident {
+	id, _ := e.(*ast.Ident)
+	return id
+}
+
 // lhsBase: for an assignment target like x.f, x.f[k], x.f[k][j] returns the selector that is being
 // written *through a map* or directly.
 func (r *rewriter) markWrites(lhs ast.Expr, writes map[ast.Expr]bool) {
@@ -220,6 +247,7 @@ func (r *rewriter) markWrites(lhs ast.Expr, writes map[ast.Expr]bool) {
 			// storing into a map element mutates the map; storing into a slice/array element does not
 			// touch the header (elements are distinct memory the detector does not track)
 			if tv, ok := r.info.Types[v.X]; ok && isMap(tv.Type) {
+				writes[v] = true // (for maps held in package-level variables, see pkgMapIdx)
 				e = v.X
 				continue
 			}
@@ -242,6 +270,8 @@ func (r *rewriter) rewriteFile() {
 	trackIdx := map[*ast.IndexExpr]bool{}   // s[i] with s a slice of trackable elements, addressable
 	trackAppend := map[*ast.CallExpr]bool{} // append(s, ...) on such a slice
 	addrOf := map[ast.Expr]bool{}           // operands of & (left alone)
+	pkgMapIdx := map[*ast.IndexExpr]bool{}  // m[k] with m a package-level map variable (one location for the race detector)
+	pkgMapDel := map[*ast.CallExpr]bool{}   // delete(m, k) on such a map
 	// pre-pass: classify contexts on the original tree
 	ast.Inspect(r.file, func(n ast.Node) bool {
 		switch v := n.(type) {
@@ -272,8 +302,14 @@ func (r *rewriter) rewriteFile() {
 				}
 			}
 		case *ast.CallExpr:
+			if se, ok := v.Fun.(*ast.SelectorExpr); ok && (se.Sel.Name == "TryLock" || se.Sel.Name == "TryRLock") && len(v.Args) == 0 {
+				r.tryLock = true
+			}
 			if id, ok := v.Fun.(*ast.Ident); ok && id.Name == "delete" && len(v.Args) == 2 {
 				if _, isBuiltin := r.info.Uses[id].(*types.Builtin); isBuiltin {
+					if r.isPkgMapVar(v.Args[0]) {
+						pkgMapDel[v] = true
+					}
 					r.markWrites(v.Args[0], writes)
 				}
 			}
@@ -301,6 +337,9 @@ func (r *rewriter) rewriteFile() {
 				if etv, ok := r.info.Types[v]; ok && etv.Addressable() {
 					trackIdx[v] = true
 				}
+			}
+			if r.isPkgMapVar(v.X) {
+				pkgMapIdx[v] = true
 			}
 		case *ast.UnaryExpr:
 			if v.Op == token.AND {
@@ -368,6 +407,14 @@ func (r *rewriter) rewriteFile() {
 			if trackIdx[n] && !addrOf[n] {
 				c.Replace(r.wrap(n, writes[n], "element "+r.pos(n)))
 			}
+			if pkgMapIdx[n] {
+				r.usedVS = true
+				fn := "MapR"
+				if writes[n] {
+					fn = "MapW"
+				}
+				n.X = call(vs(fn), n.X, strLit("map "+r.pos(n)))
+			}
 		case *ast.SendStmt:
 			r.usedVS = true
 			c.Replace(&ast.ExprStmt{X: call(vs("Send"), n.Chan, n.Value)})
@@ -379,6 +426,10 @@ func (r *rewriter) rewriteFile() {
 				inner := &ast.CallExpr{Fun: n.Fun, Args: n.Args, Ellipsis: n.Ellipsis}
 				c.Replace(call(vs("Appended"), strLit("append "+r.pos(n)), n.Args[0], inner))
 				return true
+			}
+			if pkgMapDel[n] {
+				r.usedVS = true
+				n.Args[0] = call(vs("MapW"), n.Args[0], strLit("map "+r.pos(n)))
 			}
 			if id, ok := n.Fun.(*ast.Ident); ok && id.Name == "close" && len(n.Args) == 1 {
 				if _, isBuiltin := r.info.Uses[id].(*types.Builtin); isBuiltin {
@@ -659,6 +710,12 @@ func main() {
 			}
 			r := &rewriter{fset: p.Fset, info: p.TypesInfo, pkgSet: pkgSet, file: f, fname: fname}
 			r.rewriteFile()
+			if r.tryLock {
+				// tell the scheduler that held locks are observable without blocking (see vsched.TryLockUsed)
+				r.usedVS = true
+				f.Decls = append(f.Decls, &ast.FuncDecl{Name: ast.NewIdent("init"), Type: &ast.FuncType{Params: &ast.FieldList{}},
+					Body: &ast.BlockStmt{List: []ast.Stmt{&ast.AssignStmt{Lhs: []ast.Expr{vs("TryLockUsed")}, Tok: token.ASSIGN, Rhs: []ast.Expr{ast.NewIdent("true")}}}}})
+			}
 			// imports
 			for _, imp := range f.Imports {
 				path, _ := strconv.Unquote(imp.Path.Value)
